@@ -100,6 +100,12 @@ func TestC02Pool(t *testing.T) {
 	for i := 0; i < kit.N(3, 20); i++ {
 		burstHistory(o, r)
 	}
+	for i := 0; i < kit.N(4, 30); i++ {
+		rapidHistory(o, r, i%2 == 0)
+	}
+	for i := 0; i < kit.N(600, 8000); i++ {
+		usersLimitHistory(o, r)
+	}
 	for i := 0; i < n; i++ {
 		switch r.Intn(3) {
 		case 0:
@@ -177,6 +183,64 @@ func burstHistory(o *kit.Out, r *kit.Rand) {
 	}
 	tot := stats.Total()
 	emit(o, ob, int64(big+last), int64(tot.DroppedIterationCount), false, 0, nw, 0, "burst")
+}
+
+// thousands of ticks sent back to back while the workers claim requests without the lock: every
+// claim races with a tick's swap. emptyTicks: every other tick requests nothing (it only
+// supersedes what is pending), as most sub-ticks of a distributed low rate do.
+func rapidHistory(o *kit.Out, r *kit.Rand, emptyTicks bool) {
+	nw := int(kit.Pick(r, 8, 8, 32, 64))
+	ob := &obs{live: map[*f1testing.T]bool{}}
+	m, pool, stats := newPool(nw, 0, func(t *f1testing.T) { ob.enter(t); ob.leave(t) })
+	ctx, cancel := context.WithCancel(context.Background())
+	wctx := pool.Start(ctx)
+	requested := int64(0)
+	rounds := int(r.Range(2000, 6000))
+	sz := nw/2 + int(r.Range(1, int64(nw)))
+	for k := 0; k < rounds; k++ {
+		pool.Trigger(wctx, sz)
+		requested += int64(sz)
+		if emptyTicks {
+			pool.Trigger(wctx, 0)
+		}
+	}
+	cancel()
+	if !waitDone(m, 30*time.Second) {
+		o.Fail("pool-not-complete", "trigger pool did not complete within 30s after cancel")
+		return
+	}
+	tot := stats.Total()
+	kind := "rapid"
+	if emptyTicks {
+		kind = "rapid, empty ticks between"
+	}
+	emit(o, ob, requested, int64(tot.DroppedIterationCount), false, 0, nw, 0, kind)
+}
+
+// users mode against the limit: more users than iterations left, or as many users as the limit,
+// all of them reaching the limit at the same instant; every invocation observes an id of 1..limit,
+// each exactly once (thousands of short trials: the window is a few instructions wide)
+func usersLimitHistory(o *kit.Out, r *kit.Rand) {
+	users := int(kit.Pick(r, 16, 32, 8))
+	limit := uint64(kit.Pick(r, int64(users), 3, int64(users)*2, 1))
+	ob := &obs{live: map[*f1testing.T]bool{}}
+	stats := &progress.Stats{}
+	sc := &scenarios.Scenario{Name: "c03u", ScenarioFn: func(*f1testing.T) f1testing.RunFn {
+		return func(t *f1testing.T) { ob.enter(t); ob.leave(t) }
+	}}
+	as := workers.NewActiveScenario(sc, runkit.NewMetrics(nil, false), stats, log.NewDiscardLogger(), logrus.New())
+	as.Setup()
+	m := workers.New(limit, as)
+	pool := m.NewContinuousPool(users)
+	ctx, cancel := context.WithCancel(context.Background())
+	defer cancel()
+	pool.Start(ctx)
+	if !waitDone(m, 30*time.Second) {
+		o.Fail("pool-not-complete", "continuous pool did not complete within 30s after the limit")
+		return
+	}
+	o.Count("history", "users against the limit")
+	o.Case("c03_ok", []string{kit.Ints(ob.idsDesc()), kit.I(int64(limit)), "T"}, "T", "users-limit", "ids", "nt")
 }
 
 // cancel races with the ticking goroutine: the tick in flight may be refused
@@ -443,10 +507,16 @@ func fileUsersThenRate(o *kit.Out, r *kit.Rand, dir string, idx int) {
 			mu.Unlock()
 		}
 	}
+	// a concurrency key left on the rate stage itself (as after switching it away from users) has
+	// no meaning there: the stage still runs with the limits' concurrency
+	strayKey := ""
+	if r.Bool() {
+		strayKey = "    concurrency: " + strconv.Itoa(lim+int(r.Range(1, 4))) + "\n"
+	}
 	yaml := "scenario: verifscenario\ndefault:\n  jitter: 0\n  distribution: none\n" +
 		"limits:\n  max-duration: 3s\n  concurrency: " + strconv.Itoa(lim) + "\n  max-iterations: 0\n  ignore-dropped: true\nstages:\n" +
 		"  - duration: 90ms\n    mode: users\n    concurrency: " + strconv.Itoa(users) + "\n    parameters:\n      VERIF_C04_STAGE: \"users\"\n" +
-		"  - duration: 200ms\n    mode: constant\n    rate: " + strconv.Itoa(4*lim) + "/10ms\n    parameters:\n      VERIF_C04_STAGE: \"rate\"\n"
+		"  - duration: 200ms\n    mode: constant\n    rate: " + strconv.Itoa(4*lim) + "/10ms\n" + strayKey + "    parameters:\n      VERIF_C04_STAGE: \"rate\"\n"
 	file := dir + "/c04ur_" + strconv.Itoa(idx) + ".yaml"
 	_ = writeFile(file, yaml)
 	out, hung, dump := runkit.DoTimeout(runkit.Config{Mode: "file", FileArg: file, Scenario: scenario, Ctx: context.Background(),
